@@ -66,7 +66,7 @@ func Run(s Spec) (Result, error) {
 	cmd.Stderr = ef
 	cmd.Dir = s.Dir
 	cmd.Env = append(os.Environ(),
-		"GORACE=halt_on_error=0 log_path="+filepath.Join(s.Dir, "race-"+s.Tag),
+		"GORACE=halt_on_error=0 exitcode=0 atexit_sleep_ms=0 log_path="+filepath.Join(s.Dir, "race-"+s.Tag),
 		"GOTRACEBACK=all")
 	cmd.Env = append(cmd.Env, s.Env...)
 	cmd.SysProcAttr = &syscall.SysProcAttr{Setpgid: true}
